@@ -25,6 +25,7 @@ from icalendar.cal import (Calendar, Event, Todo, Timezone, Alarm, Component, co
 from icalendar.prop import vText, vInt, vDDDTypes, vRecur, vGeo, vCategory, vUri, vCalAddress, vBinary, vBoolean, vFloat
 from icalendar.timezone import tzp
 
+PLAIN_CLASSES = {k.upper(): v for k, v in component_factory.items()}
 PROTOCOLS = sorted({2, 3, pickle.DEFAULT_PROTOCOL, pickle.HIGHEST_PROTOCOL})
 KINDS = ("VCALENDAR", "VEVENT", "VTODO", "VTIMEZONE", "VALARM", "X-COMP", "FOO")
 UTC = timezone.utc
@@ -95,7 +96,7 @@ def props_for(kind, depth):
 
 def build(t, depth=0, case_fn=None):
     kind, children = t
-    cls = component_factory.get(kind)
+    cls = PLAIN_CLASSES.get(kind)  # the library's own classes, whatever an application registered later
     if cls is None:
         c = Component()
         c.name = kind
